@@ -1,4 +1,5 @@
 import FitProps.DecoderApiHistLemmas
+import FitProps.DecoderApiTailLemmas
 /-!
 # C07 — A sequence decodes the same whatever the decoder did before
 
@@ -9,8 +10,8 @@ the options. The theorems relate the decoder object (`Fit.DecApi.run`, the model
 code) to that specification for **every** history, every byte stream, every option set and every factory.
 
 PROPERTY THEOREMS (audited by ./check): C07_decode_from_clean, C07_boundary_clean, C07_reset_is_new,
-C07_integrity_check_is_new, C07_history_indep_partial,
-C07_rejected_everywhere_partial, C07_full_fails, C07_witness_peek_past
+C07_integrity_check_is_new, C07_history_indep, C07_rejected_everywhere, C07_decode_ignores_tail, C07_peek_transparent,
+C07_former_witnesses
 -/
 namespace Fit.C07
 open Fit.DecApi
@@ -111,6 +112,18 @@ theorem C07_boundary_clean (a : Api) (op : Op) (ha : a.d.q.err = none) (h : ends
     cases c with
     | true => cases hh
     | false => exact decodeBody_clean a.d hh
+  | decodeCtxAt k =>
+    have hh : endsSequence (stepDecodeCtxAt k a.d).2.1 = true := h
+    show Clean (stepDecodeCtxAt k a.d).1
+    unfold stepDecodeCtxAt at hh ⊢
+    rw [ha] at hh ⊢
+    simp only at hh ⊢
+    unfold decodeBodyAt at hh ⊢
+    cases hr : headerOnce a.d with
+    | ok s1 => rw [hr] at hh; exact decodeTail_clean _ hh
+    | err e => rw [hr] at hh; cases hh
+    | panic => rw [hr] at hh; cases hh
+    | hang => rw [hr] at hh; cases hh
   | peekHeader =>
     have hh : endsSequence (stepPeekHeader a.d).2.1 = true := h
     unfold stepPeekHeader at hh
@@ -131,11 +144,7 @@ theorem C07_boundary_clean (a : Api) (op : Op) (ha : a.d.q.err = none) (h : ends
       rcases hp : peekLoop (fuelOf s1) s1 with ⟨s2, evs, r⟩
       rw [hp] at hh
       cases r with
-      | ok u =>
-        simp only at hh
-        cases hq : s2.q.fileId with
-        | none => rw [hq] at hh; cases hh
-        | some f => rw [hq] at hh; cases hh
+      | ok u => cases hh
       | err e => cases hh
       | panic => cases hh
       | hang => cases hh
@@ -196,22 +205,19 @@ def Agree (o : Opts) (bytes : List Nat) (ops : List Op) : Prop :=
 instance (o : Opts) (bytes : List Nat) (ops : List Op) : Decidable (Agree o bytes ops) := by
   unfold Agree; infer_instance
 
-/-- **History independence** (the property): for every byte stream, every option set and factory, and every history of
-API calls — chained sequences decoded, discarded, peeked and then decoded or discarded, `Next`, integrity checks followed
-by the re-seek, failed decodes, resets onto new readers with other options — every result the decoder object returns is
-the result the specification computes with new decoders only. Hypotheses: the streams are byte strings shorter than 4 GiB
-(`Decoder.cur` is a uint32), the factories' components are acyclic (`FacOK`: the contract of `decoder.Factory` — the real
-code recurses through them), and no `PeekFileId` of the history reads past the data window of its sequence — the class of
-the open finding F09 (KF-C07-2), outside of which the statement is unconditional. -/
-theorem C07_history_indep_partial (o : Opts) (bytes : List Nat) (ops : List Op) (hb : Small bytes) (hf : FacOK o.fac)
-    (hops : ∀ op ∈ ops, OpSmall op) (hnp : NoPeekPast (Api.fresh o bytes) ops) : Agree o bytes ops := by
-  refine sim_run ops (Api.fresh o bytes) (Spec.fresh o bytes) ⟨rfl, ⟨hb, hf⟩, hb, ?_⟩ hops hnp
+/-- **History independence** (the property, at full strength): for every byte stream, every option set and factory, and
+every history of API calls — chained sequences decoded, discarded, peeked and then decoded or discarded, `Next`,
+integrity checks followed by the re-seek, failed decodes, contexts cancelled before or during `DecodeWithContext`, resets
+onto new readers with other options — every result the decoder object returns is the result the specification computes
+with new decoders only. Hypotheses: the streams are byte strings shorter than 4 GiB (`Decoder.cur` is a uint32) and the
+factories' components are acyclic (`FacOK`: the contract of `decoder.Factory` — the real code recurses through them).
+(Before the repair of F09 — KF-C07-2, `PeekFileId` reading past a sequence without file_id — the statement needed the
+hypothesis that no `PeekFileId` of the history does so, and was false without it.) -/
+theorem C07_history_indep (o : Opts) (bytes : List Nat) (ops : List Op) (hb : Small bytes) (hf : FacOK o.fac)
+    (hops : ∀ op ∈ ops, OpSmall op) : Agree o bytes ops := by
+  refine sim_run ops (Api.fresh o bytes) (Spec.fresh o bytes) ⟨rfl, ⟨hb, hf⟩, hb, ?_⟩ hops
   show (_ ∧ _)
   exact ⟨rfl, rfl⟩
-
-/-- the full statement: no hypothesis about `PeekFileId` -/
-def C07_history_indep_full : Prop :=
-  ∀ (o : Opts) (bytes : List Nat) (ops : List Op), Small bytes → FacOK o.fac → (∀ op ∈ ops, OpSmall op) → Agree o bytes ops
 
 /-! ### witnesses -/
 
@@ -220,40 +226,81 @@ def S : List Nat := [14, 32, 154, 82, 2, 0, 0, 0, 46, 70, 73, 84, 222, 98, 0, 7,
 def Q : List Nat := [14, 32, 154, 82, 11, 0, 0, 0, 46, 70, 73, 84, 30, 8, 64, 0, 0, 20, 0, 1, 3, 1, 2, 0, 9, 112, 213]
 def B : List Nat := [14, 32, 154, 82, 11, 0, 0, 0, 46, 70, 73, 84, 30, 8, 64, 0, 0, 0, 0, 1, 0, 1, 0, 0, 4, 84, 208]
 
-/-- F09 (open finding KF-C07-2): `Q` has no file_id message: `PeekFileId` reads past it and `Decode` then rejects a
-sequence a new decoder accepts. -/
-theorem C07_witness_peek_past : ¬ Agree {} (Q ++ P) [.peekFileId, .decode] := by decide
-
 theorem small_of_decide (l : List Nat) (h : (l.all (· < 256) && decide (l.length < 4294967296)) = true) : Small l := by
   simp only [Bool.and_eq_true, List.all_eq_true, decide_eq_true_eq] at h
   exact ⟨fun b hb => h.1 b hb, h.2⟩
 
 theorem facOK_nil : FacOK [] := ⟨fun _ _ => 0, fun _ _ => (by decide : (0 : Nat) < 256), by intro e he; cases he⟩
 
-/-- … so the full statement is false on the pinned tree -/
-theorem C07_full_fails : ¬ C07_history_indep_full := by
-  intro h
-  exact C07_witness_peek_past (h {} (Q ++ P) [.peekFileId, .decode] (small_of_decide _ (by decide)) facOK_nil
-    (by intro op hop; simp only [List.mem_cons, List.mem_nil_iff, or_false] at hop; rcases hop with rfl | rfl <;> trivial))
+def isFileIdOut : Out → Bool
+  | .fileId _ => true
+  | _ => false
 
-/-- Non-vacuity of `C07_history_indep_partial`: histories with peeks, discards, an integrity check and a reset meet its
-hypotheses (and the witnesses of the two repaired defects F08 and F10 now agree with the specification). -/
-example : Small (P ++ S) ∧ NoPeekPast (Api.fresh {} (P ++ S)) [.peekFileId, .discard, .decode] ∧
-    NoPeekPast (Api.fresh {} (P ++ B ++ S)) [.checkIntegrity, .next, .peekFileId, .decode, .decode, .reset {} S, .decode] ∧
-    OpSmall (.reset {} S) :=
-  ⟨small_of_decide _ (by decide), by decide, by decide, small_of_decide _ (by decide), facOK_nil⟩
+def isFitOut : Out → Bool
+  | .fit _ => true
+  | _ => false
 
-example : Agree {} (P ++ S) [.peekFileId, .discard, .decode] ∧ Agree {} P [.peekFileId, .reset {} S, .decode] ∧
+/-- **`PeekFileId` is transparent, also for a sequence without file_id message** (the former F09): on `Q ++ P` (`Q` has
+no file_id) the peek answers with a FileId whose fields are all invalid and stops at the end of `Q`'s messages; the
+`Decode` that follows returns `Q` as a new decoder does, and the next `Decode` returns `P`. -/
+theorem C07_peek_transparent :
+    ((run (Api.fresh {} (Q ++ P)) [.peekFileId, .decode, .decode]).map (·.1)).tail =
+      (run (Api.fresh {} (Q ++ P)) [.decode, .decode]).map (·.1) ∧
+    ((run (Api.fresh {} (Q ++ P)) [.peekFileId]).map (fun r => isFileIdOut r.1)) = [true] := by decide
+
+/-- the witnesses of the three repaired findings (F08: look-ups surviving `Discard` / `Reset` after a peek; F09: peek past
+a sequence without file_id; F10: stale buffer after a failing `CheckIntegrity`) now agree with the specification (each is
+an instance of `C07_history_indep`; evaluated here on the model the driver runs) -/
+theorem C07_former_witnesses : Agree {} (Q ++ P) [.peekFileId, .decode] ∧ Agree {} (Q ++ P) [.peekFileId, .discard, .decode] ∧
+    Agree {} (P ++ S) [.peekFileId, .discard, .decode] ∧ Agree {} P [.peekFileId, .reset {} S, .decode] ∧
     Agree {} (P ++ B ++ S) [.checkIntegrity, .decode] := by decide
+
+/-- Non-vacuity of `C07_history_indep`: its hypotheses are met by histories with peeks, discards, an integrity check, a
+context cancelled during `DecodeWithContext` after a peek, and a reset -/
+example : Small (P ++ S) ∧ Small (P ++ B ++ S) ∧ OpSmall (.reset {} S) ∧ FacOK ([] : Factory) :=
+  ⟨small_of_decide _ (by decide), small_of_decide _ (by decide), ⟨small_of_decide _ (by decide), facOK_nil⟩, facOK_nil⟩
+
+example : Agree {} (P ++ B ++ S) [.checkIntegrity, .next, .peekFileId, .decode, .decode, .reset {} S, .decode] ∧
+    Agree { ml := true } (P ++ P) [.peekFileId, .decodeCtxAt 0, .decode, .reset { ml := true } P, .decodeCtxAt 2, .decode] := by decide
+
+/-- **What `Decode` returns for a sequence is a function of the sequence's bytes, not of what follows it.** The
+specification asks of every `Decode` of a history what a new decoder returns on the stream *from the first byte of the
+current sequence on*; this theorem closes the gap to "the sequence's bytes": if a new decoder on `S` alone returns a FIT,
+then on `S ++ T`, whatever `T` is (the next sequences of a chain, garbage, nothing), it returns the same FIT, makes the same
+listener calls and stands where it stood with `T` still to be read; and if it rejects `S` with an error other than "the
+stream ended" (a truncated `S` can of course be completed by `T`), it rejects `S ++ T` with that error after the same
+listener calls. With `C07_history_indep`: whatever the history, a sequence is decoded as if it were alone. -/
+theorem C07_decode_ignores_tail (o : Opts) (S T : List Nat) (hS : IsBytes S) (hf : FacOK o.fac) :
+    (∀ s' f evs, stepDecode (St.fresh o S) = (s', .fit f, evs) →
+      stepDecode (St.fresh o (S ++ T)) = ({ s' with rest := s'.rest ++ T }, .fit f, evs)) ∧
+    (∀ s' e evs, stepDecode (St.fresh o S) = (s', .err e, evs) → e ≠ .eof →
+      (stepDecode (St.fresh o (S ++ T))).2 = (.err e, evs)) := by
+  have h := stepDecode_ext T (St.fresh o S) ⟨hS, DefsOK.empty, (by decide : (0 : Nat) < 4294967296), hf⟩
+  have hx : ext T (St.fresh o S) = St.fresh o (S ++ T) := rfl
+  rw [hx] at h
+  refine ⟨fun s' f evs hd => ?_, fun s' e evs hd hne => ?_⟩
+  · rw [hd] at h
+    exact h
+  · rw [hd] at h
+    rcases h with h | h
+    · exact absurd h hne
+    · exact h
+
+/-- non-vacuity: `P` alone is accepted and leaves nothing unread; followed by `S`, by garbage, it decodes alike; the
+corrupted `B` is rejected with a CRC error alone and in front of `P` -/
+example : isFitOut (stepDecode (St.fresh {} P)).2.1 = true ∧ (stepDecode (St.fresh {} P)).1.rest = [] ∧
+    (stepDecode (St.fresh {} (P ++ S))).2 = (stepDecode (St.fresh {} P)).2 ∧
+    (stepDecode (St.fresh {} (P ++ [1, 2, 3]))).1.rest = [1, 2, 3] ∧
+    (stepDecode (St.fresh {} B)).2.1 = .err .crc ∧ (stepDecode (St.fresh {} (B ++ P))).2.1 = .err .crc := by decide +kernel
 
 /-- **A sequence a new decoder rejects is rejected in every context** (corollary): if the specification says that the
 `Decode` at position `i` of the history must fail with `e` — i.e. a decoder created on exactly the bytes of that sequence
 fails with `e` — then the decoder object fails with `e` there, whatever preceded. -/
-theorem C07_rejected_everywhere_partial (o : Opts) (bytes : List Nat) (ops : List Op) (hb : Small bytes) (hf : FacOK o.fac)
-    (hops : ∀ op ∈ ops, OpSmall op) (hnp : NoPeekPast (Api.fresh o bytes) ops) (i : Nat) (e : Err) (evs : List Event)
+theorem C07_rejected_everywhere (o : Opts) (bytes : List Nat) (ops : List Op) (hb : Small bytes) (hf : FacOK o.fac)
+    (hops : ∀ op ∈ ops, OpSmall op) (i : Nat) (e : Err) (evs : List Event)
     (hspec : (specRun (Spec.fresh o bytes) ops)[i]? = some (some (.err e, evs))) :
     (run (Api.fresh o bytes) ops)[i]? = some (.err e, evs) := by
-  have hag := C07_history_indep_partial o bytes ops hb hf hops hnp
+  have hag := C07_history_indep o bytes ops hb hf hops
   have hlen : ∀ (ops : List Op) (a : Api) (p : Spec), (run a ops).length = (specRun p ops).length := by
     intro ops
     induction ops with
